@@ -139,6 +139,23 @@ func runOne(lab *c10lab.Lab, oc *opCase, text, vars string, chooser c10lab.Choos
 			}
 		}
 	}
+	if len(fails) > 0 {
+		silent, failedN := c10lab.Silent(s)
+		d0 := "obj"
+		if s.Frames[0].ParseErr == "" && (s.Frames[0].Data == nil || s.Frames[0].Data.Kind == fl.JNull) {
+			d0 = "null"
+		}
+		for i := range fails {
+			if !strings.HasPrefix(fails[i].Clause, "reconstruct") {
+				continue
+			}
+			diag := ""
+			if strings.HasPrefix(fails[i].Detail, "/") {
+				diag = c10lab.DiagnosePosition(lab.Config.Super, strings.SplitN(fails[i].Detail, ":", 2)[0])
+			}
+			fails[i].Detail += fmt.Sprintf(" [d0=%s silent=%d failed=%d monoerr=%d diag=%s]", d0, silent, failedN, refs.monoErrors, diag)
+		}
+	}
 	return run, s, fails
 }
 
